@@ -69,6 +69,11 @@ impl Out {
         writeln!(self.w, "{}", line).unwrap();
     }
 
+    /// Flush buffered protocol lines (before running code that may crash the process).
+    pub fn flush(&mut self) {
+        self.w.flush().unwrap();
+    }
+
     pub fn input_class(&mut self, c: &str) {
         *self.inputs.entry(c.to_string()).or_insert(0) += 1;
     }
